@@ -532,7 +532,18 @@ int vnadata_convert(const vnadata_t *vdp_in, vnadata_t *vdp_out,
 	    return -1;
 	}
 	vnadata_set_frequency_vector(vdp_out, vdp_in->vd_frequency_vector);
-	if (!(vdip_in->vdi_flags & VF_PER_F_Z0)) {
+
+	/*
+	 * Carry the reference impedances over.  The z0 setters copy as
+	 * many entries as the output has ports.  A 0 x 0 input converted
+	 * to Zin gives a 1 x 0 output, which nominally has one port while
+	 * the input has none: there is nothing to copy then and the output
+	 * keeps the default.
+	 */
+	if (MAX(new_rows, new_columns) >
+		MAX(vdp_in->vd_rows, vdp_in->vd_columns)) {
+	    /* no reference impedances to carry over */
+	} else if (!(vdip_in->vdi_flags & VF_PER_F_Z0)) {
 	    if (vnadata_set_z0_vector(vdp_out, vdip_in->vdi_z0_vector) == -1) {
 		return -1;
 	    }
